@@ -1,5 +1,5 @@
 (* Property C09 -- statements only; every proof is `exact <lemma from Proofs/>`. *)
-From Erbium Require Import Lib.Base Model.DhcpPool Proofs.DhcpPool.
+From Erbium Require Import Lib.Base Model.DhcpPool Proofs.DhcpPool Proofs.DhcpPoolHistory.
 
 (* "A client that holds an unexpired lease on an address inside the pool it is
    being served from is given that same address again ... (the one it names,
@@ -86,3 +86,145 @@ Example C09_example_refusal :
   exists d', alloc_ok ex_d2 {| o_client := [8]; o_req := Some 10; o_pool := [10; 20]; o_min := 300; o_max := 86400 |}
                       1300 1300 NoAddress = Some d'.
 Proof. eexists. vm_compute. reflexivity. Qed.
+
+(* The same over HISTORIES ("for all histories as in C01 and every step"): in every
+   state reachable from the empty store by a well-formed history, a client that was
+   TOLD -- by the latest reply it received for x -- that it holds an unexpired lease on
+   an address x inside the pool it is now served from is given an address it holds
+   inside that pool, and the one it names if it was told it holds that one.  [holds]
+   is the specification-side predicate of C01 (reply log), not the store. *)
+Theorem C09_history_keeps_address :
+  forall h d log,
+  wf_history h = true -> run h = Some (d, log) ->
+  forall o t1 t2 ans d' x,
+  clock h <= t1 -> t1 < pow2 32 ->
+  holds log (o_client o) x t1 -> In x (o_pool o) ->
+  alloc_ok d o t1 t2 ans = Some d' ->
+  exists ip s k, ans = Granted ip s k /\ In ip (o_pool o) /\
+                 held_by d (o_client o) ip t1 = true /\
+                 (forall q, o_req o = Some q -> holds log (o_client o) q t1 -> In q (o_pool o) -> ip = q).
+Proof. exact history_keeps_address. Qed.
+Check C09_history_keeps_address :
+  forall h d log,
+  wf_history h = true -> run h = Some (d, log) ->
+  forall o t1 t2 ans d' x,
+  clock h <= t1 -> t1 < pow2 32 ->
+  holds log (o_client o) x t1 -> In x (o_pool o) ->
+  alloc_ok d o t1 t2 ans = Some d' ->
+  exists ip s k, ans = Granted ip s k /\ In ip (o_pool o) /\
+                 held_by d (o_client o) ip t1 = true /\
+                 (forall q, o_req o = Some q -> holds log (o_client o) q t1 -> In q (o_pool o) -> ip = q).
+Print Assumptions C09_history_keeps_address.
+
+(* ... and in no reachable state is such a client refused for lack of addresses *)
+Theorem C09_history_never_refuses_holder :
+  forall h d log,
+  wf_history h = true -> run h = Some (d, log) ->
+  forall o t1 t2 d' x,
+  clock h <= t1 -> t1 < pow2 32 ->
+  holds log (o_client o) x t1 -> In x (o_pool o) ->
+  alloc_ok d o t1 t2 NoAddress = Some d' -> False.
+Proof. exact history_never_refuses_holder. Qed.
+Check C09_history_never_refuses_holder :
+  forall h d log,
+  wf_history h = true -> run h = Some (d, log) ->
+  forall o t1 t2 d' x,
+  clock h <= t1 -> t1 < pow2 32 ->
+  holds log (o_client o) x t1 -> In x (o_pool o) ->
+  alloc_ok d o t1 t2 NoAddress = Some d' -> False.
+Print Assumptions C09_history_never_refuses_holder.
+
+(* A refusal in a reachable state leaves the store as it was, and every address of
+   the pool has exactly ONE row, which belongs to another client and has not run out *)
+Theorem C09_history_refusal_means_exhausted :
+  forall h d log,
+  wf_history h = true -> run h = Some (d, log) ->
+  forall o t1 t2 d',
+  t1 < pow2 32 ->
+  alloc_ok d o t1 t2 NoAddress = Some d' ->
+  d' = d /\ NoDup (map r_addr d) /\
+  forall x, In x (o_pool o) ->
+    exists r, In r d /\ r_addr r = x /\ r_client r <> o_client o /\ t1 <= r_expiry r /\
+              (forall r', In r' d -> r_addr r' = x -> r' = r).
+Proof. exact history_refusal_means_exhausted. Qed.
+Check C09_history_refusal_means_exhausted :
+  forall h d log,
+  wf_history h = true -> run h = Some (d, log) ->
+  forall o t1 t2 d',
+  t1 < pow2 32 ->
+  alloc_ok d o t1 t2 NoAddress = Some d' ->
+  d' = d /\ NoDup (map r_addr d) /\
+  forall x, In x (o_pool o) ->
+    exists r, In r d /\ r_addr r = x /\ r_client r <> o_client o /\ t1 <= r_expiry r /\
+              (forall r', In r' d -> r_addr r' = x -> r' = r).
+Print Assumptions C09_history_refusal_means_exhausted.
+
+(* Hypotheses of the history theorems are satisfiable: client [7] is offered 10 at
+   t = 1000 for 300 s, client [8] gets 11; 100 s later [7] holds 10 according to the
+   reply log, the clock of the history is 1100, and the model accepts exactly the
+   reuse of 10 and neither a new address nor a refusal. *)
+Definition ex_o8 : op := {| o_client := [8]; o_req := None; o_pool := [10; 11]; o_min := 300; o_max := 86400 |}.
+Definition ex_h : list event :=
+  [ EAlloc ex_o 1000 1000 (Granted 10 300 NewAddress);
+    EAlloc ex_o8 1001 1001 (Granted 11 300 NewAddress);
+    ETick 99 ].
+Example C09_example_history :
+  wf_history ex_h = true /\ clock ex_h = 1100 /\
+  exists d log, run ex_h = Some (d, log) /\ holds log ex_c 10 1100 /\ In 10 (o_pool ex_o) /\
+    (exists d', alloc_ok d ex_o 1100 1100 (Granted 10 300 ReusingLease) = Some d') /\
+    alloc_ok d ex_o 1100 1100 (Granted 11 300 NewAddress) = None /\
+    alloc_ok d ex_o 1100 1100 NoAddress = None.
+Proof.
+  split. reflexivity. split. reflexivity.
+  eexists. eexists. split. vm_compute. reflexivity.
+  split. eexists. split. vm_compute. reflexivity. vm_compute. reflexivity.
+  split. simpl. auto.
+  split. eexists. vm_compute. reflexivity.
+  split; reflexivity.
+Qed.
+
+(* Crash points and lost replies: the store may hold grants the client never heard of
+   (step_lossy); what the client WAS told still decides -- it keeps that address.
+   One configured maximum M for the whole history, as in C01's lossy theorem. *)
+Theorem C09_lossy_history_keeps_address :
+  forall M h d log,
+  wf_lossy M h = true -> run_lossy h = Some (d, log) ->
+  forall o t1 t2 ans d' x,
+  clock_lossy h <= t1 -> t1 < pow2 32 ->
+  holds log (o_client o) x t1 -> In x (o_pool o) ->
+  alloc_ok d o t1 t2 ans = Some d' ->
+  exists ip s k, ans = Granted ip s k /\ In ip (o_pool o) /\
+                 held_by d (o_client o) ip t1 = true /\
+                 (forall q, o_req o = Some q -> holds log (o_client o) q t1 -> In q (o_pool o) -> ip = q).
+Proof. exact lossy_history_keeps_address. Qed.
+Check C09_lossy_history_keeps_address :
+  forall M h d log,
+  wf_lossy M h = true -> run_lossy h = Some (d, log) ->
+  forall o t1 t2 ans d' x,
+  clock_lossy h <= t1 -> t1 < pow2 32 ->
+  holds log (o_client o) x t1 -> In x (o_pool o) ->
+  alloc_ok d o t1 t2 ans = Some d' ->
+  exists ip s k, ans = Granted ip s k /\ In ip (o_pool o) /\
+                 held_by d (o_client o) ip t1 = true /\
+                 (forall q, o_req o = Some q -> holds log (o_client o) q t1 -> In q (o_pool o) -> ip = q).
+Print Assumptions C09_lossy_history_keeps_address.
+
+(* satisfiable: the OFFER of 11 to [8] is lost (the server crashes before the send);
+   [7] still holds 10 and is given 10 *)
+Definition ex_hl : list (event * bool) :=
+  [ (EAlloc ex_o 1000 1000 (Granted 10 300 NewAddress), false);
+    (EAlloc {| o_client := [8]; o_req := None; o_pool := [10; 11]; o_min := 300; o_max := 86400 |} 1001 1001
+            (Granted 11 300 NewAddress), true);
+    (ERestart, false); (ETick 99, false) ].
+Example C09_example_lossy_history :
+  wf_lossy 86400 ex_hl = true /\ clock_lossy ex_hl = 1100 /\
+  exists d log, run_lossy ex_hl = Some (d, log) /\ length d = 2%nat /\ length log = 1%nat /\
+    holds log ex_c 10 1100 /\
+    (exists d', alloc_ok d ex_o 1100 1100 (Granted 10 300 ReusingLease) = Some d').
+Proof.
+  split. reflexivity. split. reflexivity.
+  eexists. eexists. split. vm_compute. reflexivity.
+  split. reflexivity. split. reflexivity.
+  split. eexists. split. vm_compute. reflexivity. vm_compute. reflexivity.
+  eexists. vm_compute. reflexivity.
+Qed.
